@@ -748,33 +748,28 @@ class Screen(BaseScreen, RealTerminal):
         Y will be drawn after Z, shifting Z into position.
         """
 
-        new_row = row[:-1]
-        z_attr, z_cs, last_text = row[-1]
-        last_cols = str_util.calc_width(last_text, 0, len(last_text))
-        last_offs, z_col = str_util.calc_text_pos(last_text, 0, len(last_text), last_cols - 1)
-        if last_offs == 0:
-            z_text = last_text
-            del new_row[-1]
-            # we need another segment
-            y_attr, y_cs, nlast_text = row[-2]
-            nlast_cols = str_util.calc_width(nlast_text, 0, len(nlast_text))
-            z_col += nlast_cols
-            nlast_offs, y_col = str_util.calc_text_pos(nlast_text, 0, len(nlast_text), nlast_cols - 1)
-            y_text = nlast_text[nlast_offs:]
-            if nlast_offs:
-                new_row.append((y_attr, y_cs, nlast_text[:nlast_offs]))
-        else:
-            z_text = last_text[last_offs:]
-            y_attr, y_cs = z_attr, z_cs
-            nlast_cols = str_util.calc_width(last_text, 0, last_offs)
-            nlast_offs, y_col = str_util.calc_text_pos(last_text, 0, last_offs, nlast_cols - 1)
-            y_text = last_text[nlast_offs:last_offs]
-            if nlast_offs:
-                new_row.append((y_attr, y_cs, last_text[:nlast_offs]))
-
-        new_row.append((z_attr, z_cs, z_text))
+        # split the row into characters: (attr, cs, text, columns)
+        chars = []
+        for a, cs, text in row:
+            pos = 0
+            while pos < len(text):
+                end = str_util.move_next_char(text, pos, len(text))
+                chars.append((a, cs, text[pos:end], str_util.calc_width(text, pos, end)))
+                pos = end
+        with_cols = [i for i, c in enumerate(chars) if c[3] > 0]
+        if len(with_cols) < 2:
+            return row, 0, None  # a single character fills the row: nothing to slide into place
+        iy, iz = with_cols[-2], with_cols[-1]
+        # Y together with the zero-width characters riding on it
+        ins = (chars[iy][0], chars[iy][1], b"".join(c[2] for c in chars[iy:iz]))
+        new_row = []
+        for a, cs, text, _w in chars[:iy] + chars[iz:]:
+            if new_row and new_row[-1][0] == a and new_row[-1][1] == cs:
+                new_row[-1] = (a, cs, new_row[-1][2] + text)
+            else:
+                new_row.append((a, cs, text))
         # the cursor has to move back over Z before Y is inserted
-        return new_row, str_util.calc_width(z_text, 0, len(z_text)), (y_attr, y_cs, y_text)
+        return new_row, chars[iz][3], ins
 
     def clear(self) -> None:
         """
